@@ -89,6 +89,21 @@ class FakeAMQPServer:
         new = QMsg(msg.body, props, rk, msg.seq)
         self.route(rk, new, loop)
 
+    def delete_queue(self, name):
+        """Queue deleted on the server: its consumers are cancelled server-side, its messages are gone."""
+        self.queues.pop(name, None)
+        for ch in self.channels:
+            for tag, (qn, _, _) in list(ch.consumers.items()):
+                if qn == name:
+                    ch.server_cancel(tag)
+
+    def cancel_consumers(self, name):
+        """The server cancels the consumers of a queue that stays (e.g. its node went away and came back)."""
+        for ch in self.channels:
+            for tag, (qn, _, _) in list(ch.consumers.items()):
+                if qn == name:
+                    ch.server_cancel(tag)
+
     def pump(self, loop):
         """Deliver ready messages to consumers with prefetch room, round-robin per queue among those consumers
         (RabbitMQ dispatches to the next consumer that can take a message, not always to the first one)."""
@@ -160,6 +175,9 @@ class FakeChannel:
 
     async def basic_consume(self, queue, consumer_callback, *, no_ack=False, **kw):
         await asyncio.sleep(0)
+        if queue not in self.server.queues:
+            from aiormq.exceptions import ChannelNotFoundEntity
+            raise ChannelNotFoundEntity(f"NOT_FOUND - no queue '{queue}' in vhost '/'")
         self.next_consumer += 1
         tag = f"ctag{id(self) % 1000}.{self.next_consumer}"
         self.consumers[tag] = (queue, consumer_callback, self.prefetch)
@@ -174,6 +192,18 @@ class FakeChannel:
         self.consumers.pop(consumer_tag, None)
         self.log.append(("cancel", consumer_tag))
         return spec.Basic.CancelOk(consumer_tag=consumer_tag)
+
+    def server_cancel(self, tag):
+        """Basic.Cancel sent by the server (queue deleted, node failover): aiormq drops the consumer's callback from
+        channel.consumers - repid watches exactly that through its _Consumers dictionary, whose real pop() runs here."""
+        entry = self.consumers.pop(tag, None)
+        if entry is None:
+            return
+        from repid.connections.rabbitmq.utils import _Consumers
+        watched = _Consumers()
+        watched[tag] = entry[1]
+        watched.pop(tag, None)
+        self.log.append(("server-cancel", tag))
 
     def _pump(self, loop):
         self.server.pump(loop)
